@@ -114,6 +114,8 @@ class Tr:
         for p, (e, t) in spec.pyparams.items():
             self.env[p] = (e, t)
         self.notes = []
+        self.columns = {}       # cell mode: output arrays whose leading axis is free (see run())
+        self.buflen = {}        # symbolic length of the lists standing for scratch / column arrays
         self.buffers = {}       # local 1-d scratch arrays `b = np.empty(n, ..)`, filled in index order by a loop: lists
         self.loops = []         # enclosing `for v in range(n)` loops: (v, source of n)
         self.uses_order = False
@@ -537,10 +539,26 @@ class Tr:
                     self.env[x.id] = (x.id, xt)
                 return pad + f"let ({', '.join(names)}) := {s}\n" + self.block(rest, ind, k_cont, k_ret)
             if isinstance(t, ast.Subscript) and isinstance(t.value, ast.Name) and t.value.id in self.buffers:
-                # `buf[v] = x` inside `for v in range(len(buf))`: iteration v appends element v
+                # `buf[v] = x` inside `for v in range(len(buf))`: iteration v appends element v; a store at the index equal to
+                # the current length appends too.  Anything else is refused.
                 b = t.value.id
-                if not self.loops or ast.unparse(t.slice) != self.loops[-1][0] or self.loops[-1][1] != self.buffers[b][1]:
-                    self.err(st, "a scratch array is only filled at the index of the innermost loop over its whole length")
+                idx_src = ast.unparse(t.slice)
+                if b in self.columns:
+                    els = t.slice.elts if isinstance(t.slice, ast.Tuple) else [t.slice]
+                    if [ast.unparse(x) for x in els[1:]] != list(self.columns[b][1]):
+                        self.err(st, "output column written outside the current cell")
+                    idx_src = ast.unparse(els[0])
+                in_loop = bool(self.loops) and idx_src == self.loops[-1][0]
+                if in_loop:
+                    if self.buffers[b][1] is not None and self.loops[-1][1] != self.buffers[b][1]:
+                        self.err(st, "a scratch array is only filled at the index of the innermost loop over its whole length")
+                    if self.loops[-1][2].get(b, self.buflen.get(b, "0")) != "0":
+                        self.err(st, "a list is filled by a loop only from its start")
+                    self.loops[-1][3].add(b)
+                elif idx_src == self.buflen.get(b):
+                    self.buflen[b] = f"({idx_src}) + 1"
+                else:
+                    self.err(st, f"store at index {idx_src}: neither the innermost loop variable nor the current length {self.buflen.get(b)}")
                 x, tx_ = self.expr(st.value)
                 return pad + f"let {b} := {b} ++ [{self.coerce(x, tx_, self.buffers[b][0], st)}]\n" + self.block(rest, ind, k_cont, k_ret)
             if isinstance(t, ast.Name) and isinstance(st.value, ast.Call) and ast.unparse(st.value.func) in ("np.empty", "numpy.empty") and st.value.args:
@@ -548,6 +566,7 @@ class Tr:
                 if not (isinstance(want_b, tuple) and want_b[0] == "L"):
                     self.err(st, "element type of a scratch array must be given in FuncSpec.locals")
                 self.buffers[t.id] = (want_b[1], ast.unparse(st.value.args[0]))
+                self.buflen[t.id] = "0"
                 self.env[t.id] = (t.id, want_b)
                 return pad + f"let {t.id} : {lean_type(want_b)} := []\n" + self.block(rest, ind, k_cont, k_ret)
             name = self.target_name(t)
@@ -746,9 +765,14 @@ class Tr:
         def no_return(_):
             self.err(st, "return inside a loop")
 
-        self.loops.append((v, ast.unparse(st.iter.args[0]) if len(st.iter.args) == 1 else None))
+        bound = ast.unparse(st.iter.args[0]) if len(st.iter.args) == 1 else None
+        self.loops.append((v, bound, dict(self.buflen), set()))
         body = self.block(list(st.body), ind + 6, lambda: self.state_tuple(state), no_return)
-        self.loops.pop()
+        _, _, _, stored = self.loops.pop()
+        for b in stored:
+            if bound is None:
+                self.err(st, "a list is filled by a loop over range(n) only")
+            self.buflen[b] = bound
         self.env = env0
         self.bind_state(state, types)
         return (pad + f"let {self.pattern(state)} := {rng}.foldl (fun {self.pattern(state)} {v} =>\n{body}) {init}\n"
@@ -783,6 +807,13 @@ class Tr:
                 if s.cell.get("init", {}).get(name):
                     self.env["cell_" + name] = (s.cell["init"][name], t)
             outs = ["cell_" + n for n in s.cell["arrays"]]
+            # output arrays with a leading free axis: the cell is the column `out[:, i, j]`, built front to back
+            for name, (t, ivars) in s.cell.get("columns", {}).items():
+                self.columns[name] = (t, tuple(ivars))
+                self.buffers[name] = (t, None)
+                self.buflen[name] = "0"
+                self.env[name] = (name, ("L", t))
+                outs.append(name)
 
             def k_cont():
                 for n in outs:
@@ -793,8 +824,8 @@ class Tr:
             def k_ret(_):
                 raise TranslateError(f"{s.file}:{s.name}: return with a value in a kernel")
 
-            txt = self.block(body, 2, k_cont, k_ret)
-            rt = [s.cell["arrays"][n][0] for n in s.cell["arrays"]]
+            txt = "".join(f"  let {n} : List {lean_type(t)} := []\n" for n, (t, _) in s.cell.get("columns", {}).items()) + self.block(body, 2, k_cont, k_ret)
+            rt = [s.cell["arrays"][n][0] for n in s.cell["arrays"]] + [("L", t) for t, _ in s.cell.get("columns", {}).values()]
             s.ret = rt[0] if len(rt) == 1 else ("T", tuple(rt))
         elif s.gen:
             self.env["out_"] = ("out_", ("L", ("T", (N, N, N))))
@@ -1000,7 +1031,7 @@ def translate(specs, src_root: Path, header: str):
         for a in fn.args.args:
             if a.arg not in sp.pyparams and a.arg not in dict(sp.params) and a.arg not in sp.given | sp.absent \
                     and a.arg not in sp.bind and not any(k.startswith(a.arg + ".") for k in sp.bind) \
-                    and not (sp.cell and a.arg in sp.cell["arrays"]) and a.arg not in sp.objects:
+                    and not (sp.cell and (a.arg in sp.cell["arrays"] or a.arg in sp.cell.get("columns", {}))) and a.arg not in sp.objects:
                 raise TranslateError(f"{sp.file}:{sp.name}: parameter {a.arg} has no declared type")
         sp._param_py = {}
         tr = Tr(sp, registry, fn)
